@@ -113,6 +113,13 @@ static void roundtrip(hwloc_topology_t t, const char *what)
       char *got = canon_str(r, CANON_XML);
       if (strcmp(ref, got)) { snprintf(key, sizeof(key), "c05.roundtrip.%s.%s", vs, fs); mc_violation(key, "%s :: %s", mc_case_text(), canon_diff(ref, got)); }
       free(got);
+      /* support bits "when requested": the reload imports them (IMPORT_SUPPORT), every discovery / cpubind / membind bit of the
+       * exported topology must come back (the misc part records the import itself) */
+      { const struct hwloc_topology_support *sa = hwloc_topology_get_support(t), *sb2 = hwloc_topology_get_support(r);
+        const char *part = memcmp(sa->discovery, sb2->discovery, sizeof(*sa->discovery)) ? "discovery" : memcmp(sa->cpubind, sb2->cpubind, sizeof(*sa->cpubind)) ? "cpubind" : memcmp(sa->membind, sb2->membind, sizeof(*sa->membind)) ? "membind" : NULL;
+        if (part) { const unsigned char *pa = (const unsigned char *)(part[0] == 'd' ? (const void *)sa->discovery : part[0] == 'c' ? (const void *)sa->cpubind : (const void *)sa->membind), *pb = (const unsigned char *)(part[0] == 'd' ? (const void *)sb2->discovery : part[0] == 'c' ? (const void *)sb2->cpubind : (const void *)sb2->membind);
+          size_t n = part[0] == 'd' ? sizeof(*sa->discovery) : part[0] == 'c' ? sizeof(*sa->cpubind) : sizeof(*sa->membind), at = 0; while (at < n && pa[at] == pb[at]) at++;
+          snprintf(key, sizeof(key), "c05.support.%s.%s", vs, fs); mc_violation(key, "%s :: %s support byte #%zu is %u in the exported topology and %u after the reload", mc_case_text(), part, at, pa[at], pb[at]); } }
     } else {
       char *got = canon_str(r, CANON_STRUCT & ~CANON_LEVELS);
       if (strcmp(ref_struct, got)) { snprintf(key, sizeof(key), "c05.roundtrip.%s.%s", vs, fs); mc_violation(key, "%s :: tree/sets differ: %s", mc_case_text(), canon_diff(ref_struct, got)); }
